@@ -727,6 +727,9 @@ class Gen:
                 ops += ["pdg"] * sum(1 for _, ok in batch if ok)
             elif k < 0.85:
                 m = r.choice([1, 1, 2])
+                if r.random() < 0.3:
+                    # a read is pending when the handler is dropped / when the datagram comes: nothing is lost with it
+                    ops += ["dgr1"] + (["dgh"] if r.random() < 0.5 else [])
                 for _ in range(m):
                     sid = 4 * r.choice([0, 1, 63, 64, 16384, 2**30, 2**60 - 1])
                     ops.append("pdgs:%d:%d:%d" % (r.choice([0, 1, 100, 1000, mx - 8]), self.seed(), sid))
